@@ -114,6 +114,36 @@ theorem isLatticeOfB_iff (t : Table) (L : Lattice) : isLatticeOfB t L = true ↔
     exact ⟨⟨⟨h.nodup, fun c hc => (h.mem c).mp hc⟩, fun c hc => (h.mem c).mpr hc⟩,
       fun i hi => ⟨h.cnodup i hi, fun j hj => (h.cmem i hi j).mp hj, fun j hj => (h.cmem i hi j).mpr hj⟩⟩
 
+/-- the object-side enumeration lists exactly the formal concepts -/
+theorem mem_allConceptsObj (t : Table) {A B : List Nat} :
+    (A, B) ∈ allConceptsObj t ↔ isConcept t A B = true := by
+  unfold allConceptsObj
+  rw [List.mem_eraseDups, List.mem_map]
+  constructor
+  · rintro ⟨S, hS, heq⟩
+    have hr : ∀ g ∈ S, g < t.height := fun g hg => List.mem_range.mp (mem_of_mem_sublists hS g hg)
+    have := isConcept_of_objs t hr
+    simp only [Prod.mk.injEq] at heq
+    rw [← heq.1, ← heq.2]; exact this
+  · intro h
+    rw [isConcept_iff] at h
+    refine ⟨A, ?_, ?_⟩
+    · rw [← h.1]; unfold extAll Spec.ext; exact filter_mem_sublists _ _
+    · simp only [closure, Prod.mk.injEq]
+      rw [h.2]; exact ⟨h.1, rfl⟩
+
+/-- both brute-force enumerations have the same members -/
+theorem mem_allConceptsObj_iff (t : Table) (c : List Nat × List Nat) :
+    c ∈ allConceptsObj t ↔ c ∈ allConcepts t := by
+  obtain ⟨A, B⟩ := c
+  rw [mem_allConceptsObj, mem_allConcepts]
+
+/-- the object-side executable check decides `IsLatticeOf` as well -/
+theorem isLatticeOfObjB_iff (t : Table) (L : Lattice) : isLatticeOfObjB t L = true ↔ IsLatticeOf t L := by
+  rw [← isLatticeOfB_iff]
+  simp only [isLatticeOfObjB, isLatticeOfB, Bool.and_eq_true, decide_eq_true_eq, List.all_eq_true,
+    List.contains_eq_mem, mem_allConceptsObj_iff]
+
 /-- a concept lattice has at least one concept -/
 theorem concepts_ne_nil {t : Table} {L : Lattice} (h : IsLatticeOf t L) : L.concepts ≠ [] := by
   intro hs
